@@ -22,17 +22,26 @@ Bv(b)    == [t |-> "b", n |-> IF b THEN 1 ELSE 0, d |-> 1]
 Sv(i)    == [t |-> "s", n |-> i, d |-> 1]
 None     == [t |-> "none", n |-> 0, d |-> 1]
 
-\* factor of a unit relative to the base unit of its dimension, as <<num, den>>
-F(u) == CASE u = "m" -> <<1, 1>> [] u = "cm" -> <<1, 100>> [] u = "km" -> <<1000, 1>>
-          [] u = "s" -> <<1, 1>> [] u = "ms" -> <<1, 1000>> [] OTHER -> <<1, 1>>
-Dim(u) == CASE u \in {"m", "cm", "km"} -> "L" [] u \in {"s", "ms"} -> "T" [] OTHER -> "0"
+\* a unit is an affine map to the base unit of its dimension: base = value * s + o  (s, o rationals <<num, den>>)
+\* "[len2]" and "[len5]" are the same custom symbol [len] defined as 2 m resp. 5 m by a $unit line
+S(u) == CASE u = "m" -> <<1, 1>> [] u = "cm" -> <<1, 100>> [] u = "km" -> <<1000, 1>>
+          [] u = "s" -> <<1, 1>> [] u = "ms" -> <<1, 1000>>
+          [] u = "[len2]" -> <<2, 1>> [] u = "[len5]" -> <<5, 1>>
+          [] OTHER -> <<1, 1>>
+O(u) == IF u = "Cel" THEN <<27315, 100>> ELSE <<0, 1>>
+Dim(u) == CASE u \in {"m", "cm", "km", "[len2]", "[len5]"} -> "L" [] u \in {"s", "ms"} -> "T" [] u \in {"K", "Cel"} -> "Th" [] OTHER -> "0"
 
 RECURSIVE Gcd(_, _)
 Gcd(a, b) == IF b = 0 THEN a ELSE Gcd(b, a % b)
 Abs(x) == IF x < 0 THEN -x ELSE x
 Norm(n, d) == LET g == Gcd(Abs(n), d) IN IF n = 0 THEN Qv(0, 1) ELSE Qv(n \div g, d \div g)
-\* value v given in unit u, expressed in unit u0 (same dimension)
-Conv(v, u, u0) == Norm(v.n * F(u)[1] * F(u0)[2], v.d * F(u)[2] * F(u0)[1])
+\* value v given in unit u, expressed in unit u0 (same dimension):  ((v * s + o) - o0) / s0
+Conv(v, u, u0) ==
+  LET s == S(u)  o == O(u)  s0 == S(u0)  o0 == O(u0)
+      \* v*s + o - o0 as one fraction over the common denominator
+      bn == v.n * s[1] * o[2] * o0[2] + o[1] * v.d * s[2] * o0[2] - o0[1] * v.d * s[2] * o[2]
+      bd == v.d * s[2] * o[2] * o0[2]
+  IN Norm(bn * s0[2], bd * s0[1])
 IsInt(v) == v.t = "q" /\ v.d = 1
 
 ValsOf(ty) == CASE ty = "int"   -> {Qv(q[1], q[2]) : q \in NumVals} \cup {None}
@@ -59,6 +68,7 @@ Mod == /\ prog # NoProg /\ Len(prog.mods) < MaxMods
           \E v \in ValsOf(prog.first.ty) \cup (IF typed THEN ValsOf(ty) ELSE {}), u \in UnitsOf(prog.first.ty) :
              /\ (~typed => ty = prog.first.ty)
              /\ (typed => Fits(v, ty))
+             /\ ~({"[len2]", "[len5]"} \subseteq ({u, prog.first.u} \cup {prog.mods[j].u : j \in 1..Len(prog.mods)}))
              /\ prog' = [prog EXCEPT !.mods = Append(@, [typed |-> typed, ty |-> ty, v |-> v, u |-> u])]
 Next == First \/ Mod
 
